@@ -29,6 +29,27 @@ def _on_alarm(signum, frame):
     raise AnalysisTimeout()
 
 
+# clauses every functional property depends on, whichever function a change is made in: the object front end is the functional analysis, and
+# nothing on the analysis path keeps state between calls
+FRONT_END_PROPS = ('C01', 'C04', 'C05', 'C06', 'C07', 'C09', 'C10')
+HISTORY_ROOTS = {
+    'C01': ['compute_features'], 'C02': ['find_extrema'], 'C03': ['find_zerox'], 'C04': ['compute_features', 'compute_shape_features', 'rename_extrema_df'],
+    'C05': ['compute_features', 'compute_burst_features'], 'C06': ['compute_features', 'detect_bursts_cycles'], 'C07': ['compute_features', 'detect_bursts_amp'],
+    'C08': ['check_min_burst_cycles'], 'C09': ['compute_features', 'rename_extrema_df'], 'C10': ['compute_features'],
+    'C16': ['recompute_edges'], 'C17': ['extrema_interpolated_phase'], 'C18': ['limit_df', 'limit_signal', 'drop_samples_df', 'split_samples_df', 'flatten_dfs'],
+    'C20': ['plot_burst_detect_summary', 'plot_burst_detect_param', 'plot_cyclepoints_array', 'plot_cyclepoints_df'],
+}
+
+
+def shared_clauses(rep, model, pid):
+    from sa.rules import common
+    if pid in FRONT_END_PROPS:
+        from sa.rules import c14
+        c14.front_end(rep, model)
+    if pid in HISTORY_ROOTS:
+        common.no_history(rep, model, HISTORY_ROOTS[pid])
+
+
 def run_property(pid, tier, root):
     import signal
     rep = Report(pid, tier, root)
@@ -43,6 +64,7 @@ def run_property(pid, tier, root):
         mod = importlib.import_module(f'sa.rules.{pid.lower()}')
         del engine.PYERRORS[:]
         mod.check(rep, model, tier)
+        shared_clauses(rep, model, pid)
         engine.report_pyerrors(rep)
     except AnalysisTimeout:
         rep.unresolved('ENGINE', 'timeout', '-', 'symbolic evaluation did not finish within the time budget (term blow-up on a construct outside the model)')
